@@ -281,8 +281,9 @@ HistStep ==
            THEN hdone' = TRUE /\ UNCHANGED <<cur, hist>>
            ELSE cur' = nx /\ hist' = Append(hist, HistQuery(sch, nx)) /\ UNCHANGED hdone
     /\ UNCHANGED <<mode, sch, span, lprev, live, ldone, qvars, dvars>>
+(* (the two loops do not interact: the live ticker is run after the loop)       *)
 LiveTick ==
-    /\ mode = "sched" /\ ~ldone
+    /\ mode = "sched" /\ hdone /\ ~ldone
     /\ LET nx == IF live = <<>> THEN LiveFirst(sch, span.start) ELSE LiveNext(sch, lprev)
        IN  IF nx > span.stop
            THEN ldone' = TRUE /\ UNCHANGED <<lprev, live>>
